@@ -1,4 +1,5 @@
 import PaneModel.Lemmas.PaneProofsC17
+import PaneModel.Lemmas.PaneProofsC17Complete
 /-!
 # C17 — Inheritance and generics resolve fields, order and types correctly
 
@@ -195,8 +196,8 @@ theorem C17_inherited_default_head (kw : Bool) (inh : String → Option Val) (s 
 /-! ## Type-variable substitution -/
 
 /-- **C17 (substitution, unfolding).** `substTy σ` replaces exactly the type variables `σ` binds
-(an unbound variable stays) and descends through `seq`, `tupleFixed`, `mapping`, `union`, `annotated`
-and `tupleLit`; a union is re-flattened (one level), de-duplicated, and collapses to its member when only
+(an unbound variable stays) and descends through `seq`, `tupleFixed`, `mapping`, `union`, `annotated`,
+`tupleLit` and the arguments of a subscripted dataclass `cls name args` (D26); a union is re-flattened (one level), de-duplicated, and collapses to its member when only
 one is left. -/
 theorem C17_subst (σ : List (String × Ty)) :
     (∀ n b cs t, σ.lookup n = some t → substTy σ (.typeVar n b cs) = t) ∧
@@ -206,27 +207,28 @@ theorem C17_subst (σ : List (String × Ty)) :
     (∀ o as, substTy σ (.mapping o as) = .mapping o (as.map (substTy σ))) ∧
     (∀ ts, substTy σ (.union ts) = c17_collapse (dedupTy (c17_flat (ts.map (substTy σ))))) ∧
     (∀ t anns, substTy σ (.annotated t anns) = .annotated (substTy σ t) anns) ∧
-    (∀ ts, substTy σ (.tupleLit ts) = .tupleLit (ts.map (substTy σ))) := by
-  refine ⟨?_, ?_, c17_subst_seq σ, ?_, ?_, ?_, c17_subst_annotated σ, ?_⟩
+    (∀ ts, substTy σ (.tupleLit ts) = .tupleLit (ts.map (substTy σ))) ∧
+    (∀ n as, substTy σ (.cls n as) = .cls n (as.map (substTy σ))) := by
+  refine ⟨?_, ?_, c17_subst_seq σ, ?_, ?_, ?_, c17_subst_annotated σ, ?_, ?_⟩
   · intro n b cs t h; rw [c17_subst_typeVar, h]; rfl
   · intro n b cs h; rw [c17_subst_typeVar, h]; rfl
   · intro ts; rw [c17_subst_tupleFixed, c17_substTys_eq_map]
   · intro o as; rw [c17_subst_mapping, c17_substTys_eq_map]
   · intro ts; rw [c17_subst_union, c17_substTys_eq_map]
   · intro ts; rw [c17_subst_tupleLit, c17_substTys_eq_map]
+  · intro n as; rw [c17_subst_cls, c17_substTys_eq_map]
 
-/-- every other type constructor is left alone — NOTE that this includes `cls name args` (a generic
-dataclass or user class applied to type arguments) and `structLit`: type variables inside their
-arguments are NOT substituted by the model -/
+/-- every other type constructor is left alone (none of them carries type arguments, except `structLit`,
+a TypedDict-like literal whose member types are fixed when it is written) -/
 theorem C17_subst_other (σ : List (String × Ty)) :
     substTy σ .any = .any ∧ (∀ n, substTy σ (.scalar n) = .scalar n) ∧
     (∀ o, substTy σ (.seq o none) = .seq o none) ∧ (∀ vs, substTy σ (.literal vs) = .literal vs) ∧
     (∀ n, substTy σ (.enum n) = .enum n) ∧ (∀ n b, substTy σ (.sub n b) = .sub n b) ∧
     (∀ ns ts, substTy σ (.structLit ns ts) = .structLit ns ts) ∧
-    (∀ n as, substTy σ (.cls n as) = .cls n as) ∧ (∀ a, substTy σ (.pattern a) = .pattern a) ∧
+    (∀ a, substTy σ (.pattern a) = .pattern a) ∧
     substTy σ .ndarray = .ndarray ∧ (∀ s, substTy σ (.forwardRef s) = .forwardRef s) ∧
     (∀ w, substTy σ (.unsupported w) = .unsupported w) := by
-  refine ⟨?_, ?_, ?_, ?_, ?_, ?_, ?_, ?_, ?_, ?_, ?_, ?_⟩ <;> intros <;> simp only [substTy]
+  refine ⟨?_, ?_, ?_, ?_, ?_, ?_, ?_, ?_, ?_, ?_, ?_⟩ <;> intros <;> simp only [substTy]
 
 /-- **C17 (substitution, identity).** On a type in typing-normal form (`c17_normalTy`: every union has
 at least two members, none of them a union, pairwise distinct for the test `dedupTy` uses) none of
@@ -325,6 +327,44 @@ theorem C17_parent_subst_applied (d : ClassDeclM) (p : ClassM) (bound : List (St
     rfl
   · intro n hn
     rw [hs', c17_specsUpdate_find_new _ _ n (by rw [hnames]; exact hn)]
+
+/-- **C17 (substitution is complete: "in EVERY field type").** When the images of `σ` mention none of
+the variables `σ` binds (`Cls[int, str]`; a re-parameterisation `Cls[U]` with `U` not one of the class's
+own parameters), no variable bound by `σ` occurs anywhere in `substTy σ t` — under sequences, tuples,
+mappings, unions, annotations AND the arguments of a subscripted dataclass `Other[T]` used as a field
+type.  (This is the statement that fails for the source as it was before the repair D26, where
+`Other[T]` was left alone: see the `example` below the theorem for the witness that now goes through.) -/
+theorem C17_subst_complete (σ : List (String × Ty)) (hσ : c17c_closed σ) (t : Ty) :
+    ∀ m, (σ.lookup m).isSome = true → c17c_occurs m (substTy σ t) = false :=
+  c17c_subst_complete σ hσ t
+
+/-- … hence for the processed class `D(P[args])`: a field inherited from `P` (not redeclared) mentions no
+variable the subscription binds. -/
+theorem C17_subst_complete_class (d : ClassDeclM) (p : ClassM) (bound : List (String × Ty))
+    (pp : List String) (c : ClassM) (h : processClass d (some p) bound pp = .ok c) (hσ : c17c_closed bound)
+    (n : String) (hn : n ∉ (c17_bodyFields d.body).map (·.name)) (s : SpecM)
+    (hs : c.specs.find? (·.name == n) = some s) :
+    ∀ m, (bound.lookup m).isSome = true → c17c_occurs m s.ty = false := by
+  have h4 := (C17_parent_subst_applied d p bound pp c h).2.2.2.1 n hn
+  rw [hs] at h4
+  cases hp : p.specs.find? (·.name == n) with
+  | none => rw [hp] at h4; cases h4
+  | some s0 =>
+    rw [hp] at h4
+    simp only [Option.map_some, Option.some.injEq] at h4
+    subst h4
+    exact c17c_subst_complete bound hσ s0.ty
+
+-- non-vacuity: `T ↦ int` is closed, and `Other[T]` (a field type) loses its `T`
+example : c17c_closed [("T", .scalar "int")] ∧
+    c17c_occurs "T" (.cls "Other" [.typeVar "T" none []]) = true ∧
+    c17c_occurs "T" (substTy [("T", .scalar "int")] (.cls "Other" [.typeVar "T" none []])) = false := by
+  refine ⟨?_, by simp [c17c_occurs, c17c_occurss], C17_subst_complete _ ?_ _ "T" (by simp [List.lookup])⟩ <;>
+  · intro k u hk m hm
+    simp only [List.lookup] at hk
+    split at hk
+    · cases hk; simp [c17c_occurs]
+    · cases hk
 
 /-- a root class (no parent): the merged specs are the own specs -/
 theorem C17_root_specs (d : ClassDeclM) (bound : List (String × Ty)) (pp : List String) (c : ClassM)
@@ -840,8 +880,9 @@ example : ∃ s, .field s ∈ c17_ChildDecl.body ∧ s.name = "w" :=
   ⟨s, h1, h2.symm⟩
 example : substTy c17_bInt c17_T = c17_int := (C17_subst c17_bInt).1 "T" none [] c17_int (by rfl)
 example : substTy c17_bInt c17_U = c17_U := (C17_subst c17_bInt).2.1 "U" none [] (by rfl)
--- `cls` arguments are NOT descended into: `Other[T]` stays `Other[T]` under `T ↦ int`
-example : substTy c17_bInt (.cls "Other" [c17_T]) = .cls "Other" [c17_T] := (C17_subst_other c17_bInt).2.2.2.2.2.2.2.1 _ _
+-- `cls` arguments are descended into (D26): `Other[T]` becomes `Other[int]` under `T ↦ int`
+example : substTy c17_bInt (.cls "Other" [c17_T]) = .cls "Other" [c17_int] := by
+  rw [(C17_subst c17_bInt).2.2.2.2.2.2.2.2 "Other" [c17_T]]; rfl
 example : substTy c17_bInt (c17_list c17_str) = c17_list c17_str := (C17_subst_id_unionFree _ _ (by decide)).1 (by decide)
 example : c17_Kw.opts.inRename = some ["camel"] ∧ c17_Kw.opts.outRename = some "camel" :=
   (C17_options_rename _ _ _ _ (C17_options_class _ _ _ _ _ c17_KwOk)).1 "camel" rfl
@@ -870,6 +911,8 @@ example : ∀ o', ({ classHandlers := [⟨[("int", "conv")], true⟩] } : Opts).
 #print axioms C17_subst_compose_partial
 #print axioms C17_subst_compose_counterexample
 #print axioms C17_parent_subst_applied
+#print axioms C17_subst_complete
+#print axioms C17_subst_complete_class
 #print axioms C17_root_specs
 #print axioms C17_subst_depth
 #print axioms C17_subscript
